@@ -57,6 +57,12 @@ CHECKS.update({
          "All 2^64 patterns cannot be enumerated; integrality/range boundaries are covered structurally.", "4/C18"),
 })
 
+CHECKS.update({
+ "C11": ("oracle computed from the multiset of argument values; exhaustive ordered tuples (all permutations) over a small pool + random lists (proptest)",
+         "Exploration: every ordered argument tuple of length <=4 (thorough <=5) over an 9-11 value pool for every aggregate and evaluator - which includes every permutation of every multiset - random lists up to length 8 with varied argument spellings, failing arguments at every position, empty lists.",
+         "Argument values are scaled integers (k/1024, k/10^4) so that every partial sum is exact and the expected mean is a single correctly rounded division; NaN/inf arguments are outside the claim.", "4/C11"),
+})
+
 NOT_YET = {
 }
 
